@@ -257,6 +257,9 @@ func c04Trigger(e *c04Enc, how string, again func(*c04Enc) string) string {
 	if !strings.HasPrefix(e.format, "official") {
 		return ""
 	}
+	if len(e.cs) == 0 {
+		return " trigger=empty-bitmap(zero-containers)"
+	}
 	mk := func(cs []c04Cont, run []bool) *c04Enc {
 		f := "official"
 		if c04AnyRun(run) {
@@ -372,6 +375,10 @@ func c04Encodings(w *c04W, cs []c04Cont, flags byte, allRunPatterns bool) []*c04
 		}
 		out = append(out, &c04Enc{format: f, data: data, want: want, flags: flags, cs: cs})
 	}
+	if len(cs) == 0 {
+		// the empty bitmap in the official format: no-run cookie, zero containers (8 bytes)
+		out = append(out, &c04Enc{format: "official", data: c04EncodeOfficial(nil, nil), want: want})
+	}
 	official := len(cs) > 0
 	for _, c := range cs {
 		if c.key > 0xFFFF || len(c.sh.vals) == 0 {
@@ -456,63 +463,6 @@ func TestVerif_C04(t *testing.T) {
 	})
 
 	lap("single")
-	// (2) multi-container bitmaps: every assignment of shapes to 1..N containers, every run pattern
-	mshapes := []*c04Shape{
-		{name: "{0}", vals: []uint16{0}},
-		{name: "{0,2,4,6}", vals: []uint16{0, 2, 4, 6}},
-		{name: "{5..9,65535}", vals: []uint16{5, 6, 7, 8, 9, 65535}},
-		c04ByName(fam, "stride2-N4096"),
-		c04ByName(fam, "full"),
-	}
-	if thorough {
-		mshapes = append(mshapes, c04ByName(fam, "stride2-N4095"), c04ByName(fam, "stride2-N4097"))
-	}
-	mkeys := []uint64{0, 1, 5, 65534, 65535, 7}
-	maxN := c.Pick(4, 5)
-	c.Bound("multi_container_shapes", len(mshapes))
-	c.Bound("multi_container_max_count", maxN)
-	type job struct{ n, x int }
-	var jobs []job
-	for n := 1; n <= maxN; n++ {
-		tot := 1
-		for i := 0; i < n; i++ {
-			tot *= len(mshapes)
-		}
-		for x := 0; x < tot; x++ {
-			jobs = append(jobs, job{n, x})
-		}
-	}
-	vx.ParallelFor(len(jobs), func(j int) {
-		if c.Expired() {
-			return
-		}
-		w := &c04W{c: c}
-		n, x := jobs[j].n, jobs[j].x
-		ks := append([]uint64(nil), mkeys[:n]...)
-		for a := range ks { // ascending keys
-			for b := a + 1; b < len(ks); b++ {
-				if ks[b] < ks[a] {
-					ks[a], ks[b] = ks[b], ks[a]
-				}
-			}
-		}
-		cs := make([]c04Cont, n)
-		for i := n - 1; i >= 0; i-- {
-			cs[i] = c04Cont{key: ks[i], sh: mshapes[x%len(mshapes)], enc: (x + i) % 3}
-			x /= len(mshapes)
-		}
-		for _, e := range c04Encodings(w, cs, 0, true) {
-			c04CheckDecode(w, e)
-			c.Distinct(fmt.Sprintf("2|%s|%s|%s", c04Desc(cs), e.format, c04RunStr(e.run)))
-		}
-		if j%997 == 0 {
-			c.Sample("decode: " + c04Desc(cs) + " × all formats and run patterns × {slice,btree}")
-		}
-		c.Outcome(fmt.Sprintf("multi containers=%d", n))
-		w.flush()
-	})
-
-	lap("multi")
 	// (2b) 65,536 containers (every 16-bit key), and bitmaps whose container was emptied through the API
 	{
 		w := &c04W{c: c}
@@ -576,7 +526,7 @@ func TestVerif_C04(t *testing.T) {
 		c04ByName(fam, "stride2-N4096"),
 	}
 	if thorough {
-		ishapes = append(ishapes, c04ByName(fam, "full"), c04ByName(fam, "full-minus-0"), c04ByName(fam, "stride15-N4096"))
+		ishapes = append(ishapes, c04ByName(fam, "full"), c04ByName(fam, "stride15-N4096"))
 	}
 	ikeys := []uint64{0, 1, 2}
 	nb := 1
@@ -618,6 +568,64 @@ func TestVerif_C04(t *testing.T) {
 	})
 
 	lap("import")
+	// (largest product last, so that a deadline hit under load cuts only this part)
+	// (2) multi-container bitmaps: every assignment of shapes to 1..N containers, every run pattern
+	mshapes := []*c04Shape{
+		{name: "{0}", vals: []uint16{0}},
+		{name: "{0,2,4,6}", vals: []uint16{0, 2, 4, 6}},
+		{name: "{5..9,65535}", vals: []uint16{5, 6, 7, 8, 9, 65535}},
+		c04ByName(fam, "stride2-N4096"),
+		c04ByName(fam, "full"),
+	}
+	if thorough {
+		mshapes = append(mshapes, c04ByName(fam, "stride2-N4097"))
+	}
+	mkeys := []uint64{0, 1, 5, 65534, 65535, 7}
+	maxN := c.Pick(4, 5)
+	c.Bound("multi_container_shapes", len(mshapes))
+	c.Bound("multi_container_max_count", maxN)
+	type job struct{ n, x int }
+	var jobs []job
+	for n := 1; n <= maxN; n++ {
+		tot := 1
+		for i := 0; i < n; i++ {
+			tot *= len(mshapes)
+		}
+		for x := 0; x < tot; x++ {
+			jobs = append(jobs, job{n, x})
+		}
+	}
+	vx.ParallelFor(len(jobs), func(j int) {
+		if c.Expired() {
+			return
+		}
+		w := &c04W{c: c}
+		n, x := jobs[j].n, jobs[j].x
+		ks := append([]uint64(nil), mkeys[:n]...)
+		for a := range ks { // ascending keys
+			for b := a + 1; b < len(ks); b++ {
+				if ks[b] < ks[a] {
+					ks[a], ks[b] = ks[b], ks[a]
+				}
+			}
+		}
+		cs := make([]c04Cont, n)
+		for i := n - 1; i >= 0; i-- {
+			cs[i] = c04Cont{key: ks[i], sh: mshapes[x%len(mshapes)], enc: (x + i) % 3}
+			x /= len(mshapes)
+		}
+		for _, e := range c04Encodings(w, cs, 0, true) {
+			c04CheckDecode(w, e)
+			c.Distinct(fmt.Sprintf("2|%s|%s|%s", c04Desc(cs), e.format, c04RunStr(e.run)))
+		}
+		if j%997 == 0 {
+			c.Sample("decode: " + c04Desc(cs) + " × all formats and run patterns × {slice,btree}")
+		}
+		c.Outcome(fmt.Sprintf("multi containers=%d", n))
+		w.flush()
+	})
+
+	lap("multi")
 	c.Assume("official-format inputs are produced by the harness' reference encoder written from the RoaringFormatSpec (offset header with the run cookie iff >= 4 containers; array iff cardinality <= 4096); it is trusted code")
 	c.Assume("sets outside the boundary universe / threshold families are covered only by the small-scope argument")
 	if c.Finish() != 0 {
